@@ -418,7 +418,7 @@ func runC16Case(c *Ctx, idx int) *CaseResult {
 func init() {
 	register(&Check{
 		ID: "C16", Level: "exploration",
-		Rule: "histories of 3-14 operations in {build 1-3 rules (fresh / duplicate / reused names), library.RemoveRuleEntry, knowledgeBase.RemoveRuleEntry, removal on an instance (once or twice, probed twice), store+load into the same library (overwrite true/false), store+load into a new library, instantiate} over 1-4 knowledge bases whose (name, version) pairs collide under naive joining ('a:b'/'c' vs 'a'/'b:c'), names from a small alphabet incl. 'Deleted_R1'; oracle = model kb -> name -> unique text id, probed after EVERY step on EVERY knowledge base with one FetchMatchingRules and one Execute on a fresh instance (each rule records its text id); non-trivial = distinct histories containing a removal followed by a rebuild, a second removal, an instance probe or a store/load",
+		Rule: "histories of 3-14 operations in {build 1-3 rules (fresh / duplicate / reused names), library.RemoveRuleEntry, knowledgeBase.RemoveRuleEntry, removal on an instance (once or twice, probed twice), store+load into the same library (overwrite true/false), store+load into a new library, instantiate} over 1-4 knowledge bases whose (name, version) pairs collide under naive joining ('a:b'/'c' vs 'a'/'b:c'), names from a small alphabet incl. 'Deleted_R1'; oracle = model kb -> name -> unique text id, probed after EVERY step on EVERY knowledge base with one FetchMatchingRules and one Execute on a fresh instance (each rule records its text id); non-trivial = distinct histories containing a removal followed by a rebuild, a second removal, an instance probe or a store/load; builds go through BuildRuleFromResource (one text) or BuildRuleFromResources / BuildRulesFromBundle (one resource per rule)",
 		Assume: []string{"non-duplicate rules of a rejected multi-rule text may or may not be kept (the model follows the probe for those new names only)"},
 		Cases:  tierN(2500, 80000),
 		Run:    runC16Case,
